@@ -391,35 +391,37 @@ func runC17Net(o *opts) (*summary, error) {
 			if path != "bcast" {
 				kinds = append(kinds, "badserial")
 			}
-			kind := kinds[(i+j+int(o.seed))%len(kinds)]
-			cs := g.call(op, serials[path])
-			mu.Lock()
-			nreq, wire = 0, nil
-			first := true
-			answer = func(req []byte) [][]byte {
-				m := valid(op, req)
-				if first {
-					first = false
-					switch kind {
-					case "badcode":
-						m[1] ^= 0x03
-					case "badproto":
-						m[0] = 0x18
-					case "badserial":
-						m[5] ^= 0x5a
+			_, _ = i, j
+			for _, kind := range kinds {
+				cs := g.call(op, serials[path])
+				mu.Lock()
+				nreq, wire = 0, nil
+				first := true
+				answer = func(req []byte) [][]byte {
+					m := valid(op, req)
+					if first {
+						first = false
+						switch kind {
+						case "badcode":
+							m[1] ^= 0x03
+						case "badproto":
+							m[0] = 0x18
+						case "badserial":
+							m[5] ^= 0x5a
+						}
 					}
+					return [][]byte{m}
 				}
-				return [][]byte{m}
+				mu.Unlock()
+				var err error
+				pn, _ := guard(func() { _, err = cs.call(u) })
+				time.Sleep(3 * time.Millisecond)
+				mu.Lock()
+				n := nreq
+				answer = nil
+				mu.Unlock()
+				w.put(M{"op": "FatalFirst", "what": kind + "-then-valid:" + op + "/" + path, "nreq": n, "failed": err != nil, "panicked": pn}, "fatal-first", "fatal/"+op+"/"+path+"/"+kind)
 			}
-			mu.Unlock()
-			var err error
-			pn, _ := guard(func() { _, err = cs.call(u) })
-			time.Sleep(3 * time.Millisecond)
-			mu.Lock()
-			n := nreq
-			answer = nil
-			mu.Unlock()
-			w.put(M{"op": "FatalFirst", "what": kind + "-then-valid:" + op + "/" + path, "nreq": n, "failed": err != nil, "panicked": pn}, "fatal-first", "fatal/"+op+"/"+path)
 		}
 	}
 	return w.close(), nil
